@@ -13,15 +13,15 @@ log="$sd/confirm.log"; : > $log
 demo=$(ls $sd/demo*_test.go $sd/*_test.go 2>/dev/null | head -1)
 cp "$demo" "$dest/zz_seed_demo_test.go"
 echo "## demo WITHOUT change (must pass)" >> $log
-go test -vet=off -count=1 -timeout 30m -run "$run" ./$dest/ >> $log 2>&1; a=$?
+go test -p 6 -vet=off -count=1 -timeout 30m -run "$run" ./$dest/ >> $log 2>&1; a=$?
 git apply "$patch" || { echo "PATCH DOES NOT APPLY" >> $log; exit 3; }
 echo "## build WITH change" >> $log
-go build ./... >> $log 2>&1; b=$?
+go build -p 6 ./... >> $log 2>&1; b=$?
 echo "## demo WITH change (must fail)" >> $log
-go test -vet=off -count=1 -timeout 30m -run "$run" ./$dest/ >> $log 2>&1; c=$?
+go test -p 6 -vet=off -count=1 -timeout 30m -run "$run" ./$dest/ >> $log 2>&1; c=$?
 rm "$dest/zz_seed_demo_test.go"
 echo "## existing tests WITH change (must pass): $*" >> $log
-go test -vet=off -count=1 -timeout 60m "$@" >> $log 2>&1; d=$?
+go test -p 6 -vet=off -count=1 -timeout 60m "$@" >> $log 2>&1; d=$?
 echo "RESULT demo_without=$a build=$b demo_with=$c existing_tests=$d" >> $log
 if [ $a = 0 ] && [ $b = 0 ] && [ $c != 0 ] && [ $d = 0 ]; then echo "CONFIRMED" >> $log; else echo "NOT CONFIRMED" >> $log; fi
 tail -2 $log
